@@ -267,6 +267,7 @@ class PeerConn:
         out = pre + data
         # intact: the peer put exactly the honest message on the wire (a delay, or a close / reset placed after the whole message, leave it so)
         rec['intact'] = bytes(out) == honest
+        rec['after'] = after
         if w.plan.get('keep_tx') and len(self.delivered) < 262144:
             self.delivered += out
         if out:
@@ -616,7 +617,9 @@ class SimSSHServer:
         by_conn = {pc.ordinal: pc.log for pc in self.conns}
         for rq in out.get('gex_requests', []):
             tx = [t for t in by_conn.get(rq['conn'], {}).get('tx', []) if t['tag'] == 'group']
-            if tx and tx[-1]['intact'] and rq.get('answer') is not None:
+            lost_to_reset = tx and tx[-1].get('after') == 'truncate_reset' and not getattr(self.w, 'rst_keeps_data', True)
+            if tx and tx[-1]['intact'] and rq.get('answer') is not None and not lost_to_reset:
+                # (a reset right behind the message discards it unread under the socket profile that drops queued data)
                 rq['delivered'] = True
         return out
 
